@@ -214,6 +214,18 @@ CLAIMED = {
                  "generation and of pstrtod on all inputs (numerical theorems, not shape properties)."),
         "note": "Trusted: clang 14 AST (literal values, FloatingLiteral::isExact); Python exact rational arithmetic.",
     },
+    "C02": {
+        "level": "other",
+        "design_ref": "DESIGN.md section 3, C02 (R02.1, R02.2)",
+        "technique": "table agreement: aggregate initialisers and an if-chain of the generator vs reference tables of the Python data model",
+        "text": ("Decides only the naming/slot clause of C02 ('operators as dunder methods ... keywords prefixed with _'): every dunder name and "
+                 "every C++ operator renamed by methodRenameDictionary is assigned by get_slotted_function_def the type slot CPython's slotdefs "
+                 "give that dunder, with matching unary/binary/in-place arity, no two operators share a numeric slot, in-place rows carry the "
+                 "in-place flag; pythonKeywords contains every hard keyword of Python 3 and method names pass through checkKeyword.  Not "
+                 "decided: overload dispatch, argument conversion, ownership, exceptions, absence of crashes or leaks in generated modules "
+                 "and in the embedded runtime (py_panda.cxx etc. are not compiled by this build)."),
+        "note": "Trusted: clang 14 AST; ivf/spec/python_slots.json and python_keywords.json (transcribed from CPython / the language reference).",
+    },
 }
 
 NOT_APPLICABLE = {
